@@ -37,7 +37,10 @@ RULE = ('random sequential architectures (depth 1-4 of Conv1d with stride/dilati
         'checked call), a tenth register further element-wise activations with the library rule; half exact mode (small-integer weights, '
         'piecewise-linear activations, Coq recomputes the forward pass), half co-simulation mode (float64 '
         'weights, smooth activations recorded by harness hooks); non-trivial = at least one registered '
-        'non-linearity (activation or max-pool) whose two halves differ on some unit; cases with some '
+        'non-linearity (activation or max-pool) whose two halves differ on some unit; further streams (design/C04.md, '
+        '"Coverage audit"): model structure (nested containers, aliases, training mode, frozen parameters, extra '
+        'forward args), numpy / negative / object forms of the scalar parameters, batch_size 0, a reference '
+        'function of the caller, user hooks, directed tiny-delta_out units; cases with some '
         '|delta_in| in [1e-9, 1e-4] are excluded and counted (hist key "band")')
 TRUSTED = ['probing of torch affine modules (Conv1d/Linear/AvgPool1d) into matrices with basis vectors; '
            'cross-checked on every case by comparing the model\'s forward value with torch\'s f(x), f(ref)',
@@ -264,9 +267,13 @@ def gen_input(rng, exact, allow_maxpool, affine_only=False, pid=None):
     if rng.random() < 0.15 and len(layers) >= 3:
         st['nest'] = rng.randint(1, len(layers) - 1)
     if rng.random() < 0.08:
-        st['alias'] = rng.randrange(len(layers))
+        nl = [i for i, ly in enumerate(layers) if ly['t'] in ('act', 'maxpool')]
+        st['alias'] = rng.choice(nl) if nl and rng.random() < 0.7 else rng.randrange(len(layers))
     if rng.random() < 0.10:
         st['train'] = True
+        if acts_idx and not used_extra and rng.random() < 0.7:
+            # RReLU draws random slopes in training mode: the call must switch every child to eval
+            layers[rng.choice(acts_idx)]['name'] = 'RReLU'
     if rng.random() < 0.08:
         st['frozen'] = True
     if rng.random() < 0.12 and not many:
@@ -702,9 +709,11 @@ def _analyse(inp):
         R0 = None if refs is None else refs.clone()
         A0 = None if b['args'] is None else [a.clone() for a in b['args']]
         o = inp.get('opts', {})
+        returned = None
         if refs is None or o.get('ret_refs'):
-            (raw, used), w1 = _run_dls(b, inp, raw_outputs=True, return_references=True)
-            used = used.to(torch.float64)
+            (raw, returned), w1 = _run_dls(b, inp, raw_outputs=True, return_references=True)
+            returned = returned.to(torch.float64)
+            used = returned if refs is None else refs     # a given tensor is the call side, whatever came back
         else:
             raw, w1 = _run_dls(b, inp, raw_outputs=True)
             used = refs
@@ -723,7 +732,8 @@ def _analyse(inp):
         # nothing that belongs to the caller may have been modified
         sd, sd0 = model.state_dict(), twin.state_dict()
         untouched = (bool(torch.equal(X, X0)) and (refs is None or bool(torch.equal(refs, R0)))
-                     and (refs is None or bool(torch.equal(used, refs)))
+                     and (refs is None or returned is None or (tuple(returned.shape) == tuple(refs.shape)
+                                                               and bool(torch.equal(returned, refs))))
                      and (A0 is None or all(torch.equal(a, a0) for a, a0 in zip(b['args'], A0)))
                      and all(torch.equal(sd[k], sd0[k]) for k in sd0))
         if inp['refs'] == 'func':        # the references must come from the caller's function
@@ -748,6 +758,9 @@ def _analyse(inp):
         used = refs
     res['out'] = out
     res['refs'] = used
+    if used is not None and tuple(used.shape) != (B, ns, A, L):
+        used = None                      # generated references of the wrong shape: nothing to co-simulate
+        res['refs'] = None
     if used is None:
         res['cosim'] = None
         return res
